@@ -342,7 +342,7 @@ theorem str_struct (cfg : Cfg) (al : Bool) (fs : Fields) (hR : StrF cfg fs) :
 
 theorem read_union_inv (cfg : Cfg) (al : Bool) (fs : Fields) (ctx : Ctx) (d : Bytes) (p : Nat) (v : Val) (q : Nat)
     (h : read cfg (.union al fs) ctx d p = .ok (v, q)) :
-    ∃ sz vs, q = p + (sread d p sz).length ∧ readMembers cfg fs [] (sread d p sz) = .ok vs := by
+    ∃ sz vs, q = p + sz ∧ readMembers cfg fs [] (sread d p sz) = .ok vs := by
   rw [read] at h
   split at h
   · cases h
